@@ -50,6 +50,11 @@ func c09Gen(c *vfCtx, emit func(c09Case)) {
 										// Go sources next to the snapshot directory, named after the stale files, holding no test function: without -run they protect nothing
 										"../stale.go": "package x\n\ntype fixture struct{}\n\nfunc (fixture) TestLike() {}\nfunc helper() {}\n", "../F.go": "package x\n\nvar _ = 1\n"}, Dirs: []string{"d.snap"}}
 									var es []vfEntry
+									staleEntryChoices := staleEntryChoices
+									if (mask+fmask+cnt+sa)%3 == 2 {
+										// stale ids that are no id the library hands out, but read as numbers at or below the ordinals reached
+										staleEntryChoices = []vfEntry{{ID: "TestOld - 0", Body: "old"}, {ID: "TestA - 02", Body: "beyond"}, {ID: "TestA/old - 00", Body: "sub"}, {ID: "TestB - 99999999999999999999", Body: "b2\n\nx"}}
+									}
 									if mask&1 != 0 {
 										es = append(es, staleEntryChoices[0])
 									}
